@@ -97,12 +97,35 @@ def attr_names(mesh):
     return out
 
 
-def mk_attr(container, name, values, dense):
-    a = container.create_attribute(name, float, dense=bool(dense))
+def mk_attr(container, name, values, storage, n=None, standalone=False, esz=None):
+    """an attribute whose READS (attr[i], total-map semantics) are `values`, in the requested storage state:
+    storage = True  dense, every entry written | False  sparse, every entry written
+            | [kind, default, written]  kind "d"/"s" (dense/sparse) created with default_value=default, only the
+              listed indices written (the other values equal the default: they are answered by the default).
+    Entries are scalars or 3-vectors (a vector attribute's default is the scalar default in every component)."""
+    from mouette.mesh.mesh_attributes import Attribute, ArrayAttribute
+    n = len(values) if n is None else n
+    vec = bool(values) and isinstance(values[0], (list, tuple))
+    esz = (3 if vec else 1) if esz is None else esz
+    vec = esz == 3
+    if isinstance(storage, (list, tuple)):
+        dense, dflt, written = storage[0] == "d", float(storage[1]), set(storage[2])
+    else:
+        dense, dflt, written = bool(storage), None, None
+    if standalone:
+        a = ArrayAttribute(float, n, esz, default_value=dflt) if dense else Attribute(float, esz, default_value=dflt)
+    else:
+        kw = {} if dflt is None else {"default_value": dflt}
+        a = container.create_attribute(name, float, esz, dense=dense, **kw)
     for i, v in enumerate(values):
-        if v is not None:
-            a[i] = float(v)
+        if v is None or (written is not None and i not in written):
+            continue
+        a[i] = np.array(v, dtype=float) if vec else float(v)
     return a
+
+
+def read_out(attr, n, vec):
+    return vec_list(attr, n) if vec else scal_list(attr, n)
 
 
 def run_call(mesh, call, state, form=0):
@@ -182,8 +205,9 @@ def run_call(mesh, call, state, form=0):
             "v2f": (mesh.vertices, mesh.faces, nf), "f2v": (mesh.faces, mesh.vertices, nv),
             "sv2c": (mesh.vertices, mesh.face_corners, ncorn), "sf2c": (mesh.faces, mesh.face_corners, ncorn),
             "c2v": (mesh.face_corners, mesh.vertices, nv), "c2f": (mesh.face_corners, mesh.faces, nf)}[nm]
-        a_in = mk_attr(src_c, "c07_in_%d" % k, vals, din)
-        a_out = mk_attr(dst_c, "c07_out_%d" % k, pre or [], dout)
+        vec = bool(vals) and isinstance(vals[0], (list, tuple))
+        a_in = mk_attr(src_c, "c07_in_%d" % k, vals, din, standalone=(k % 3 == 0))
+        a_out = mk_attr(dst_c, "c07_out_%d" % k, pre or [], dout, n=n_out, esz=3 if vec else 1)
         if nm == "v2f":
             r = A.interpolate_vertices_to_faces(mesh, a_in, a_out)
         elif nm == "f2v":
@@ -196,7 +220,7 @@ def run_call(mesh, call, state, form=0):
             r = A.average_corners_to_vertices(mesh, a_in, a_out, w) if form == 1 else A.average_corners_to_vertices(mesh, cattr=a_in, vattr=a_out, weight=w)
         else:
             r = A.average_corners_to_faces(mesh, a_in, a_out, w) if form == 1 else A.average_corners_to_faces(mesh, a_in, a_out, weight=w)
-        return scal_list(r, n_out)
+        return read_out(r, n_out, vec)
     raise RuntimeError("unknown call " + nm)
 
 
